@@ -1,7 +1,8 @@
 //! C07: cycle breaking.
 //! Request `{"graph": {"<id>": node..}, "lo": n, "hi": n}`: build the IR directly, run the real
 //! `break_cycles(lo..hi)`; answer `{"next": n, "nodes": {"<id>": node..}}` (same node format).
-//! Request `{"schema": <root schema document>}`: run the real `add_root_schema`; answer
+//! Request `{"schema": <root schema document>, "then": [<schema>, ..]?}`: run the real `add_root_schema` (then `add_type` for
+//! each further schema on the same type space); answer
 //! `{"lo","hi","pre":{next,nodes},"post":{next,nodes}}` with the IR snapshot taken just before
 //! `break_cycles` and the final IR; or `err <Kind>`.
 use serde_json::{json, Map, Value};
@@ -83,6 +84,22 @@ fn handle(line: &str) -> String {
             Err(e) => format!("err {}", tvh::err_kind(&e)),
             Ok(_) => {
                 let pre = TypeSpace::verif_take_pre_cycles().unwrap();
+                // "then": further schemas handed to `add_type` on the same type space (a history of additions); the answer's
+                // `post` is the type space after all of them, `then` says how each went
+                let mut then = Vec::new();
+                if let Some(more) = req.get("then").and_then(|t| t.as_array()) {
+                    for m in more {
+                        let r = match serde_json::from_value::<schemars::schema::Schema>(m.clone()) {
+                            Ok(sch) => match std::panic::catch_unwind(std::panic::AssertUnwindSafe(|| ts.add_type(&sch))) {
+                                Ok(Ok(_)) => "ok".to_string(),
+                                Ok(Err(e)) => format!("err {}", tvh::err_kind(&e)),
+                                Err(_) => "panic".to_string(),
+                            },
+                            Err(_) => "unsupported".to_string(),
+                        };
+                        then.push(r);
+                    }
+                }
                 let post = ts.verif_dump();
                 let ids = pre["ref_to_id"]
                     .as_object()
@@ -92,7 +109,7 @@ fn handle(line: &str) -> String {
                     .collect::<Vec<_>>();
                 let lo = ids.iter().min().cloned().unwrap_or(0);
                 let hi = ids.iter().max().map(|m| m + 1).unwrap_or(0);
-                json!({"lo": lo, "hi": hi, "pre": norm_dump(&pre), "post": norm_dump(&post)})
+                json!({"lo": lo, "hi": hi, "pre": norm_dump(&pre), "post": norm_dump(&post), "then": then})
                     .to_string()
             }
         };
